@@ -32,10 +32,14 @@ func fuzzFamily(f *testing.F, family string) {
 	if !worker {
 		hostile := hostileInputs()
 		for i, e := range es {
-			if !fuzzing && !vlib.Mine(globalIndex(e)) {
+			if !fuzzing && !mine(globalIndex(e), e) {
 				continue
 			}
-			for _, s := range mustSamples(f, e) {
+			ss := mustSamples(f, e)
+			if ss == nil {
+				f.Fatalf("corpus of %s is empty", e.name)
+			}
+			for _, s := range ss {
 				f.Add(uint16(i), s.enc)
 				seedKind[fmt.Sprintf("%d|%x", i, s.enc)] = "valid"
 			}
